@@ -50,10 +50,13 @@ def limit_df(df, fs, start=None, stop=None, reset_indices=True):
 
     # Ensure arguments are within valid range
     check_param_range(fs, 'fs', (0, np.inf))
-    check_param_range(start, 'start', (0, stop))
-    check_param_range(stop, 'stop', (start, np.inf))
+    if start is not None:
+        check_param_range(start, 'start', (0, np.inf if stop is None else stop))
+    if stop is not None:
+        check_param_range(stop, 'stop', (0 if start is None else start, np.inf))
 
     center_e, side_e = get_extrema_df(df)
+    last_zerox = 'sample_last_zerox_decay' if center_e == 'peak' else 'sample_last_zerox_rise'
 
     start = 0 if start is None else start
 
@@ -69,7 +72,7 @@ def limit_df(df, fs, start=None, stop=None, reset_indices=True):
         df['sample_' + center_e] = df['sample_' + center_e] - int(fs * start)
         df['sample_zerox_rise'] = df['sample_zerox_rise'] - int(fs * start)
         df['sample_zerox_decay'] = df['sample_zerox_decay'] - int(fs * start)
-        df['sample_last_zerox_decay'] = df['sample_last_zerox_decay'] - int(fs * start)
+        df[last_zerox] = df[last_zerox] - int(fs * start)
 
     return df
 
